@@ -112,6 +112,12 @@ Section Conn.
         deliver (take msg_size data)
                 (if msg_size <? count then rec st (drop msg_size data) else Done st []).
 
+  (* the final if/else of OnDataReceived: fragment pending or less than a header -> HandleFragmentedData *)
+  Definition handle (rec : state -> list byte -> outcome) (st : state) (actual : list byte) : outcome :=
+    if (0 <? len (buf st)) || (len actual <? size_of_header)
+    then handle_fragmented rec st actual
+    else handle_unfragmented rec st actual.
+
   (* OnDataReceived with a message receiver installed *)
   Fixpoint on_data (fuel : nat) (st : state) (data : list byte) : outcome :=
     match fuel with
@@ -120,20 +126,16 @@ Section Conn.
         let count := len data in
         if count =? 0 then Done st []
         else
-          let cnt := len (buf st) in
-          let go (actual : list byte) :=
-            if (0 <? cnt) || (len actual <? size_of_header)
-            then handle_fragmented (on_data f) st actual
-            else handle_unfragmented (on_data f) st actual in
-          if cnt =? 0 then
+          if len (buf st) =? 0 then
+            (* early filtering: nothing pending, look for the preamble *)
             if count =? 1 then
-              if Ascii.eqb (hd0 data) p0 then go data else Done st []
+              if Ascii.eqb (hd0 data) p0 then handle (on_data f) st data else Done st []
             else
               match find_preamble data with
               | None => Done st []
-              | Some i => go (drop i data)
+              | Some i => handle (on_data f) st (drop i data)
               end
-          else go data
+          else handle (on_data f) st data
     end.
 
   Definition fuel_for (data : list byte) : nat := 2 * length data + 2.
@@ -161,7 +163,9 @@ Definition on_data_raw (data : list byte) : list (list byte) :=
 Definition feed_raw (chunks : list (list byte)) : list (list byte) := flat_map on_data_raw chunks.
 
 (* ---- input domain of the theorems (boolean, extracted, evaluated by the harness on every generated input) ---- *)
-Definition chunk_ok (c : list byte) : bool := len c <? 2 ^ count_bits.
+(* a chunk: its length is a uint32, and adding the at most SizeOfHeader-1 pending bytes must not wrap
+   (uint32 totalFragmentedByteCount = count + m_fragment_buffer_cnt) *)
+Definition chunk_ok (c : list byte) : bool := len c + size_of_header <=? 2 ^ count_bits.
 Definition filler_ok (p0 : byte) (f : list byte) : bool := forallb (fun b => negb (Ascii.eqb b p0)) f.
 (* a well-formed message: header (preamble, any type id, payload size) ++ exactly that many payload bytes, and the
    whole message fits the uint32 byte count of OnMessageReceived *)
